@@ -714,7 +714,9 @@ def oracle_step(g, op, before_objs, before_snaps, world, exc, views):
         src = g._src_obj
         res = world[op[1]]
         cells = [complex(x) for a in (arrays_of(src)[:2] if not isinstance(src, np.ndarray) else [src]) for x in np.asarray(a).reshape(-1).tolist()]
-        if isinstance(res, AbsSq):
+        if not cells:
+            pass                         # abs() of an empty mesh: no norm to compare with (the model expects ValueError)
+        elif isinstance(res, AbsSq):
             want = max(int(x.real) ** 2 + int(x.imag) ** 2 for x in cells)
             if res.sq != want:
                 bad.append(('abs() is not the maximum modulus of the cells', 'abs'))
@@ -889,7 +891,8 @@ REQUIRED = ['C13_ops_preserve_objects', 'C13_ops_preserve_others', 'C13_value_se
             'C13_iop_rebinds_never_writes', 'C13_ufunc_result_class', 'C13_binop_same_class', 'C13_iop_keeps_class',
             'C13_setitem_frame', 'C13_setitem_preserves_disjoint', 'C13_copy_independent', 'C13_component_views_alias',
             'C13_component_view_tracks_parent', 'C13_abs_is_maxnorm', 'C13_maxnorm_triangle', 'C13_maxnorm_homogeneous',
-            'C13_maxnorm_zero_iff', 'C13_complex_maxnorm_triangle', 'C13_particles_result_independent_refuted']
+            'C13_maxnorm_zero_iff', 'C13_complex_maxnorm_triangle', 'C13_particles_result_independent_refuted',
+            'C13_wfs_reachable', 'C13_setitem_reads_back', 'C13_component_write_seen_in_parent', 'C13_parent_write_seen_in_component']
 
 
 def run_level(ck):
@@ -898,7 +901,8 @@ def run_level(ck):
     thorough = ck.tier == 'thorough'
     skipped = []
     results = []
-    for label, build in configs(thorough):
+    reported = set()
+    for label, build in configs(thorough) * (3 if thorough else 1):
         if isinstance(build, Exception):
             skipped.append((label, repr(build)))
             continue
@@ -908,18 +912,36 @@ def run_level(ck):
             skipped.append((label, '%s: %s' % (type(e).__name__, e)))
             continue
         results.append(r)
-        ck.case(key=('run', label), nontrivial=r['nlogged'] >= 1, sample=None)
+        ck.case(key=('run', label, r['Tend']), nontrivial=r['nlogged'] >= 1, sample=None)
+        r['findings'] = [f for f in r['findings'] if (label, f[1]) not in reported]
+        reported.update((label, f[1]) for f in r['findings'])
         ck.traces += 1
         for what, kind, detail in r['findings']:
+            if kind == 'component-detached':
+                detail = dict(detail, reproducer="P = <problem class of this configuration>(...); f = P.eval_f(P.u_exact(0.), 0.); "
+                              "numpy.asarray(f)[0] differs from f.impl; P.dtype_f(f).impl is the stale buffer")
             ck.violation('%s [%s]' % (what, label), {'configuration': label, 'detail': detail, 'Tend': r['Tend'],
                                                     'how': 'harness/c13_runs.py configs()[label] built and run by run_config'},
                          match={'kind': kind, 'config': label})
+    # static scan: statements that rebind a component attribute of a multi-component mesh (sites the run-level
+    # monitor can only confirm for importable problem classes; the others are listed for the record)
+    try:
+        from harness.c13_scan import Scanner
+        from harness.common import REPO
+        with warnings.catch_warnings():
+            warnings.simplefilter('ignore')
+            hits, nfiles = Scanner(REPO).scan()
+        ck.cov['component_rebind_sites_static'] = ['%s:%d %s.%s %s.%s %s' % (h['file'], h['line'], h['cls'], h['method'], h['var'], h['component'], h['stmt'])
+                                                    for h in hits]
+        ck.cov['component_rebind_files_scanned'] = nfiles
+    except Exception as e:
+        ck.notes.append('static component-rebind scan failed: %r' % (e,))
     ck.cov['run_configs'] = len(results)
     ck.cov['run_configs_skipped'] = skipped
     ck.cov['run_logged_objects_checked'] = sum(r['nlogged'] for r in results)
     ck.obligation('caller u0 and %d logged/returned solutions unchanged in %d sweeper x controller runs'
                   % (sum(r['nlogged'] for r in results), len(results)), not any(r['findings'] for r in results))
-    if len(results) < 30:
+    if len({r['label'] for r in results}) < 30:
         ck.violation('too few run configurations could be executed (%d)' % len(results), {'skipped': skipped}, match={'kind': 'harness-runs'}, no_input=True)
 
 
@@ -931,7 +953,7 @@ def run(ck):
                'runs: one per (sweeper, controller, problem) configuration with seeded number of steps' % POOL)
     ck.check_props(required=REQUIRED)
     ck.log('property theorems checked')
-    run_sequences(ck, 640 if thorough else 200, 30 if thorough else 24)
+    run_sequences(ck, 2000 if thorough else 200, 36 if thorough else 24)
     ck.log('operation sequences done')
     run_level(ck)
     ck.log('run-level clause done')
